@@ -90,9 +90,9 @@ Example C05_calc2_example :
   Calc2.r_tr (Calc2.exec (embed e) false (map embed_ev script)) =
     [Calc2.XT (Calc2.TLeafStart 1 false true 0 0 0 0); Calc2.XT (Calc2.TLeafStart 2 false true 0 0 0 0);
      Calc2.XSkip; Calc2.XT (Calc2.TCall (Calc2.FThrowIf 5 77) 5); Calc2.XT (Calc2.TLeafStop 2);
-     Calc2.XT (Calc2.TValCtor Calc2.SFinE 77); Calc2.XT (Calc2.TLeafDtor 1); Calc2.XT (Calc2.TLeafDtor 2);
+     Calc2.XT (Calc2.TLeafDtor 1); Calc2.XT (Calc2.TLeafDtor 2);
      Calc2.XT (Calc2.TLeafStart 3 false true 0 0 0 0); Calc2.XT (Calc2.TLeafStop 3); Calc2.XSkip; Calc2.XSkip;
-     Calc2.XT (Calc2.TLeafDtor 3); Calc2.XT (Calc2.TValDtor Calc2.SFinE 77); Calc2.XRoot (Calc2.OErr 77) 0 0; Calc2.XRootDtor] /\
+     Calc2.XT (Calc2.TLeafDtor 3); Calc2.XRoot (Calc2.OErr 77) 0 0; Calc2.XRootDtor] /\
   erase (Calc2.r_tr (Calc2.exec (embed e) false (map embed_ev script))) =
     [Calc.XT (Calc.TLeafStart 1 false true 0 0); Calc.XT (Calc.TLeafStart 2 false true 0 0); Calc.XSkip;
      Calc.XT (Calc.TCall (Calc.FThrowIf 5 77) 5); Calc.XT (Calc.TLeafStop 2);
